@@ -190,10 +190,12 @@ func (c *connection) onProcess(onConnect OnConnect, onRequest OnRequest) (proces
 				return
 			}
 			// cannot use recover() here, since we don't want to break the panic stack
-			c.unlock(processing)
 			if c.IsActive() {
+				c.unlock(processing)
 				c.Close()
 			} else {
+				// already closed by someone else, who could not get the processing lock:
+				// keep holding it, so that the callbacks run exactly once (here)
 				c.closeCallback(false, false)
 			}
 		}()
